@@ -37,6 +37,8 @@ type Run struct {
 	clients map[int]*client
 	invAt   map[[2]int]int64 // (script id, op index) -> invocation time
 	eng     *engines
+	kept    []*keptValue
+	keptStr [][2]string
 }
 
 type client struct {
@@ -383,6 +385,10 @@ func (r *Run) doOp(sc *plan.Script, idx int, op *plan.Op, rec *plan.Rec) {
 	}
 	if strings.HasPrefix(op.K, "eng.") {
 		r.doEngine(op, rec)
+		return
+	}
+	if op.K == "putv" || op.K == "getv" || strings.HasPrefix(op.K, "snap.") {
+		r.doValueOp(sc, op, rec)
 		return
 	}
 	c, err := r.client(sc)
